@@ -3,6 +3,7 @@
 package c09
 
 import (
+	"sort"
 	"bytes"
 	"encoding/json"
 	"fmt"
@@ -148,6 +149,21 @@ func Inputs(s *rs.Schema, t *rs.Type, quick bool) []input {
 				add(true, m.V, m.Kind)
 			}
 		}
+	}
+	return out
+}
+
+// Tree is one input tree of the C09 space, for other checks that want the same inputs.
+type Tree struct {
+	Repr bool
+	V    ref.Val
+	Mut  string
+}
+
+func InputTrees(s *rs.Schema, t *rs.Type, quick bool) []Tree {
+	var out []Tree
+	for _, in := range Inputs(s, t, quick) {
+		out = append(out, Tree{in.repr, in.v, in.mut})
 	}
 	return out
 }
@@ -300,6 +316,40 @@ func Lockstep(s *rs.Schema, t *rs.Type, c Case, a, b typed.Outcome) (fs []core.F
 	}
 	if !bytes.Equal(a.Bytes, b.Bytes) {
 		fs = append(fs, core.F(site+"/bytes-differ(dag-cbor)", "%s: bindnode %x, generated %x", where, a.Bytes, b.Bytes))
+	}
+	// "expose the same content" through every access form: an access form that misbehaves in one engine
+	// only (an inconsistency of the complete read that the other engine's node does not have)
+	if len(fs) == 0 {
+		causes := func(o typed.Outcome) map[string]string {
+			m := map[string]string{}
+			for _, inc := range o.Incs {
+				m[inc.Cause] = inc.Detail
+			}
+			return m
+		}
+		ca, cb := causes(a), causes(b)
+		sorted := func(m map[string]string) []string {
+			var ks []string
+			for k := range m {
+				ks = append(ks, k)
+			}
+			sort.Strings(ks)
+			return ks
+		}
+		for _, c := range sorted(cb) {
+			d := cb[c]
+			if _, ok := ca[c]; !ok {
+				fs = append(fs, core.F(site+"/generated-only-inconsistency("+c+")", "%s: the generated node's read is inconsistent where bindnode's is not: %s", where, d))
+				break
+			}
+		}
+		for _, c := range sorted(ca) {
+			d := ca[c]
+			if _, ok := cb[c]; !ok && len(fs) == 0 {
+				fs = append(fs, core.F(site+"/bindnode-only-inconsistency("+c+")", "%s: the bindnode node's read is inconsistent where the generated one's is not: %s", where, d))
+				break
+			}
+		}
 	}
 	return fs
 }
